@@ -151,8 +151,6 @@ def _cubic_cases(rng, thorough):
                 nf = len(sval) + (1 if cyclic else 2) - (1 if centred else 0)
                 if nf < 1:
                     continue  # no columns
-            if centred and mode == "na" and bname == "narrower":
-                continue  # training rows outside the bounds are missing: 'zero mean on the training data' is undefined
             x = list(tv)
             if not centred and tname.startswith("random") and rng.random() < 0.3:
                 x.insert(rng.randint(0, len(x)), float("nan"))
